@@ -40,7 +40,7 @@ def run(chk, replay=None):
         chk.cov["exhaustive"] = True
         # ---- one-shot case table
         g = vlib.cfg("C12_cases_%s.cfg" % tier, SEED=seed, ALLLENS=vlib.intset(range(1, 257)))
-        vlib.replay_cases(chk, "C12Cases", g, "c12.cases", "cases_replay", opts={"revpass": 1})
+        vlib.replay_cases(chk, "C12Cases", g, "c12.cases", "cases_replay", opts={"revpass": 1, "arena": 1})
         # ---- recorded programs -> trace validation
         trace, res = os.path.join(d, "rc4.ndjson"), os.path.join(d, "rc4.res")
         vlib.run_harness("c12.rc4record", None, res, {"trace": trace, "traces": 40 if quick else 400,
